@@ -231,3 +231,17 @@ func (t *T) Reopen() {
 	t.mu.Unlock()
 	t.wg.Wait() // conds []
 }
+
+// UnlockInHelper (audit M11): the helper releases the lock its caller took.  The extractor cannot follow
+// that: the caller's write AFTER the call is still recorded under [mu Ex] (wrong), which is why the Unlock
+// site of the helper - recorded with a lexical lock set that lacks mu - must make the table fail
+// (coq/model/Race.v unlock_failures; "unbalanced-unlock" line of the fixture).
+func (t *T) UnlockInHelper() {
+	t.mu.Lock()
+	t.releaseForCaller()
+	t.a = 7 // Wr: really unlocked; recorded as lex=[mu:Ex]
+}
+
+func (t *T) releaseForCaller() {
+	t.mu.Unlock()
+}
